@@ -1178,3 +1178,26 @@ for _nm, _callee, _kw in (("_ndim_event_synchronization", "self.event_synchroniz
            checks=("shape", "bounds"))
     _c.region = "body"
     _c.required_asserts = []
+
+
+# ---- _nsi_cross_local_clustering: nsi_cc[v] += sum_{p: A[v,p]} ( w_p^2 + sum_{q>p: A[p,q] and A[q,v]} 2 w_p w_q )
+K("_nsi_cross_local_clustering", "core", props=("C11", "C02", "C04", "C20"),
+  requires=_XN + [f"shape(nsi_cc,0)=={_M}", "shape(node_weights,0)==shape(A,0)"],
+  ghost={"nq": ("int", "int", "int", "float"), "np_": ("int", "int", "float")},
+  defs=[f"all(nq(i,j,j+1)==0 {_dom3})",
+        f"all(nq(i,j,q+1)==nq(i,j,q)+ite(A[nodes2[j],nodes2[q]]!=0 and A[nodes2[q],nodes1[i]]!=0, "
+        f"2*node_weights[nodes2[j]]*node_weights[nodes2[q]], 0) {_dom3} for q in range(j+1,{_Nn}))",
+        f"all(np_(i,0)==0 for i in range({_M}))",
+        f"all(np_(i,j+1)==np_(i,j)+ite(A[nodes1[i],nodes2[j]]!=0, node_weights[nodes2[j]]*node_weights[nodes2[j]]+nq(i,j,{_Nn}), 0) {_dom3})"],
+  ensures=[f"all(nsi_cc[i]==old(nsi_cc[i])+np_(i,{_Nn}) for i in range({_M}))"],
+  loops={"v": [f"all(nsi_cc[a]==old(nsi_cc[a])+np_(a,{_Nn}) for a in range(v))",
+               f"all(nsi_cc[a]==old(nsi_cc[a]) for a in range(v,{_M}))", f"m=={_M} and n=={_Nn}"],
+         "v.p": [f"all(nsi_cc[a]==old(nsi_cc[a])+np_(a,{_Nn}) for a in range(v))",
+                 f"all(nsi_cc[a]==old(nsi_cc[a]) for a in range(v+1,{_M}))",
+                 "all(nsi_cc[a]==old(nsi_cc[a])+np_(a,p) for a in range(v,v+1))", "node_v==nodes1[v]", f"m=={_M} and n=={_Nn}"],
+         "v.p.q": [f"all(nsi_cc[a]==old(nsi_cc[a])+np_(a,{_Nn}) for a in range(v))",
+                   f"all(nsi_cc[a]==old(nsi_cc[a]) for a in range(v+1,{_M}))",
+                   "all(nsi_cc[a]==old(nsi_cc[a])+np_(a,p)+weight_p*weight_p+nq(a,p,q) for a in range(v,v+1))",
+                   "node_v==nodes1[v] and node_p==nodes2[p] and weight_p==node_weights[nodes2[p]]", "A[node_v,node_p]!=0",
+                   f"m=={_M} and n=={_Nn}"]},
+  modifies=["nsi_cc"], checks=("bounds", "narrow"))
